@@ -2,7 +2,7 @@
 """regenerate MANIFEST.json from units/props.json (claimed) + units/not_applicable.json"""
 import json, os
 V = os.path.dirname(os.path.dirname(os.path.abspath(__file__)))
-props = json.load(open(os.path.join(V, "units", "props.json")))
+props = {k: v for k, v in json.load(open(os.path.join(V, "units", "props.json"))).items() if v.get("level_text") != "draft"}  # drafts are not claimed
 na = json.load(open(os.path.join(V, "units", "not_applicable.json")))
 checks = []
 for pid in sorted(props):
